@@ -55,6 +55,10 @@ def run_case(case) -> list[Failure]:
     if not valid(case):
         raise core.InvalidCase
     for api, arg in case["ops"]:
+        if api == "rc_refused":
+            if case["framing"] == "chunked" or arg is not None:
+                raise core.InvalidCase
+            continue
         if api not in ("read", "read1", "readinto") or (arg is not None and (not isinstance(arg, int) or arg < 0)) or (api == "readinto" and not arg):
             raise core.InvalidCase
     mixed = case["framing"] == "chunked" and respgen.families(case) == {"A", "B"}
@@ -232,6 +236,10 @@ def _hyp():
         if t[0] == "iter":
             decode = True
         c = mk(n, draw(st.integers(0, 50)), cod, members, framing, cs, ext, seg, decode, ops, t, via)
+        if framing != "chunked" and c["ops"] is not None and via == "conn" and draw(st.integers(0, 5)) == 0:
+            # somewhere in the sequence the caller tries read_chunked() and is (rightly) refused
+            pos = draw(st.integers(0, len(c["ops"])))
+            c["ops"] = c["ops"][:pos] + [["rc_refused", None]] + c["ops"][pos:]
         if framing == "cl" and draw(st.integers(0, 4)) == 0:
             c["cl_list"] = True
         if framing == "chunked":
